@@ -182,7 +182,8 @@ class Parser(object):
                      | ID
         """
 
-        p[0] = p[1]
+        # A PLAIN_STRING token runs up to the next delimiter and may end with blanks that are not part of the text
+        p[0] = p[1].rstrip(" \t")
 
     def p_plain_string_with_number(self, p):
         """
@@ -192,7 +193,9 @@ class Parser(object):
                      | ID plain_string
         """
 
-        p[0] = str(p[1]) + p[2]
+        # Keep the text exactly as written (blanks between words, leading zeros, number formatting) rather than
+        # re-assembling it from converted token values
+        p[0] = p.lexer.lexdata[p.lexpos(1) : p.lexpos(2)] + p[2]
 
     def p_permissive_plain_string(self, p):
         """
